@@ -145,7 +145,7 @@ class Check:
         }
         if extra:
             ev.update(extra)
-        if self.replay is None:
+        if self.replay is None and not os.environ.get('VERIF_NO_EVIDENCE'):
             os.makedirs(os.path.join(VERIF, 'evidence'), exist_ok=True)
             with open(os.path.join(VERIF, 'evidence', '%s.json' % self.prop), 'w') as fp:
                 json.dump(ev, fp, indent=1, sort_keys=True)
